@@ -568,7 +568,9 @@ func (c *wgCtx) check(cfg simrt.Config) ([]mismatch, simrt.Stats, string) {
 		if out.Err != nil {
 			summary += " (" + out.ErrClass + ")"
 		}
-		if out.Mutated {
+		if out.Mutated || c.canon.Mutated {
+			// the canonical build of newWGCtx is the first call that sees the
+			// model as generated (an in-place sort leaves nothing to change later)
 			add("C10", "structure.model_modified", "", "Build modified its input model")
 			add("C13", "input.modified", "", "Build modified its input model")
 		}
